@@ -62,8 +62,25 @@ pub fn splitter_of(name: &str) -> WordSplitter {
     }
 }
 
+/// a custom word separator: words end after ',' or ';' (lossless; no model counterpart)
+fn sep_after_punct(line: &str) -> Box<dyn Iterator<Item = textwrap::core::Word<'_>> + '_> {
+    let mut out = Vec::new();
+    let mut start = 0;
+    for (i, c) in line.char_indices() {
+        if c == ',' || c == ';' {
+            out.push(textwrap::core::Word::from(&line[start..i + 1]));
+            start = i + 1;
+        }
+    }
+    if start < line.len() {
+        out.push(textwrap::core::Word::from(&line[start..]));
+    }
+    Box::new(out.into_iter())
+}
+
 pub fn sep_of(c: char) -> WordSeparator {
     match c {
+        'x' => WordSeparator::Custom(sep_after_punct),
         #[cfg(feature = "full")]
         'u' => WordSeparator::UnicodeBreakProperties,
         _ => WordSeparator::AsciiSpace,
@@ -138,7 +155,7 @@ impl Opt {
             "width={} break_words={} sep={} splitter={} alg={}{} ending={} initial_indent={:?} subsequent_indent={:?}",
             self.width,
             self.bw,
-            if self.sep == 'u' { "UnicodeBreakProperties" } else { "AsciiSpace" },
+            match self.sep { 'u' => "UnicodeBreakProperties", 'x' => "Custom(after , or ;)", _ => "AsciiSpace" },
             match self.splitter { "n" => "NoHyphenation", "h" => "HyphenSplitter", x => x },
             match self.alg { 'o' => "OptimalFit", 'A' => "Custom(one word per line)", 'B' => "Custom(blank line, then first-fit)", 'C' => "Custom(all on one line)", 'D' => "Custom(two words per line)", _ => "FirstFit" },
             if self.alg == 'o' && self.pen != DEFAULT_PEN { format!("{:?}", self.pen) } else { String::new() },
